@@ -10,11 +10,22 @@
       driver's input, so an implementation whose result depends on them disagrees with `spec`.
    {"op":"stat","pid":n,"comm":hex,"state":hex,"ppid":n,"start":n,"pre":[hex…],"post":[hex…]}
       renders the stat line (kernel format) and reads it back with both readers.
+   {"op":"dyn","call":…,"pid":P,"mk":xrows,"lowest":n|null,"t0":xrows,"t1":xrows|null,
+    "steps":[[xrows,xrows,xrows],…]|null,"oneshot":null|"fresh"|xrows}      xrows = [[pid,ppid,start,"R"|"Z"|"X"],…]
+      the richer world of Model/C05Dyn.lean: "Z" = zombie, "X" = stat file unreadable (EACCES).
+      children: identity check + ppid_map() on `t0` (listing = every row of t0), look-ups on `t1`.
+      parent/parents: the i-th `parent()` call sees steps[i] = [identity check, own stat read,
+      Process(ppid)] (the last entry repeats; default t0 everywhere); pids() lists t0.
+      oneshot: the call runs inside `with p.oneshot():`, after a first `p.ppid()` on the given table
+      ("fresh": nothing called before).
+      `spec` is null where the specification is silent (an unreadable stat file on the path of
+      parent()/parents(), a process turning unreadable while children() walks, a oneshot cache hit).
 -/
 import PsutilModel.Base.Proto
 import PsutilModel.Model.C05Gen
 import PsutilModel.Spec.C05
 import PsutilModel.Spec.C05Stat
+import PsutilModel.Spec.C05Dyn
 open Lean Psutil Psutil.Proto Psutil.C05
 
 def parseRow (j : Json) : R Row := do
@@ -123,6 +134,151 @@ def handleStat (j : Json) : R Json := do
                     ("ctime", jPOut (statCtime scfg data))]),
     ("spec", jObj [("map", jPOut (.ok ppid)), ("ppid", jPOut (.ok ppid)), ("ctime", jPOut (.ok start))])]
 
+/-! ### the richer world -/
+
+def parseSt (j : Json) : R St := do
+  let s ← asStr j
+  if s == "R" then pure .run else if s == "Z" then pure .zombie else if s == "X" then pure .denied
+  else .error s!"unknown state {s}"
+
+def parseXRow (j : Json) : R XRow := do
+  match j.getArr? with
+  | .ok #[a, b, c, d] => do
+    let a ← asNat a
+    let b ← asNat b
+    let c ← asNat c
+    let d ← parseSt d
+    pure ⟨a, b, c, d⟩
+  | _ => .error "xrow must be [pid, ppid, start, state]"
+
+def parseXTable (j : Json) : R XTable := asList parseXRow j
+
+def parseStep (j : Json) : R PStep := do
+  match j.getArr? with
+  | .ok #[a, b, c] => do
+    let a ← parseXTable a
+    let b ← parseXTable b
+    let c ← parseXTable c
+    pure ⟨a.pids, a.read, b.read, c.read⟩
+  | _ => .error "step must be [ti, to, tp]"
+
+def jXOut {α : Type} (f : α → List (String × Json)) : XOut α → Json
+  | .ok v => jObj (("kind", "ok") :: f v)
+  | .nsp p => jExc "NoSuchProcess" (some p)
+  | .denied p => jExc "AccessDenied" (some p)
+  | .permissionError => jExc "PermissionError" none
+  | .indexError => jExc "IndexError" none
+  | .diverged => jObj [("kind", "diverged")]
+
+def isPlain (T : XTable) : Bool := T.all fun r => r.st != .denied
+def toPlainT (T : XTable) : Table := T.map fun r => ⟨r.pid, r.ppid, r.start⟩
+
+def xoutEq {α : Type} [BEq α] : XOut α → XOut α → Bool
+  | .ok a, .ok b => a == b
+  | .nsp a, .nsp b => a == b
+  | .denied a, .denied b => a == b
+  | .permissionError, .permissionError => true
+  | .indexError, .indexError => true
+  | .diverged, .diverged => true
+  | _, _ => false
+
+instance : BEq Row := ⟨fun a b => a.pid == b.pid && a.ppid == b.ppid && a.start == b.start⟩
+
+def handleDyn (j : Json) : R Json := do
+  let call ← strF j "call"
+  let pid ← natF j "pid"
+  let mk ← field j "mk" >>= parseXTable
+  let lowest ← optF asNat j "lowest"
+  let t0 ← field j "t0" >>= parseXTable
+  let t1o ← optF parseXTable j "t1"
+  let t1 := t1o.getD t0
+  let stepsO ← optF (asList parseStep) j "steps"
+  let steps := stepsO.getD []
+  let osJ ← field j "oneshot"
+  let me0 ← (match mk.read pid with
+    | .ok _ s => pure (⟨pid, s, false, false⟩ : Caller)
+    | _ => .error s!"pid {pid} is not readable in mk")
+  -- oneshot: an earlier `p.ppid()` inside the block
+  let (me, os) : Caller × Oneshot ← (match osJ with
+    | Json.null => pure (me0, none)
+    | Json.str "fresh" => pure (me0, some none)
+    | other => do
+      let tp ← parseXTable other
+      let r := ppidX cfg (stepOfX tp) me0 (some none)
+      pure (r.1, r.2.1))
+  let cached : Bool := match os with | some (some _) => true | _ => false
+  let ps : Ps := ⟨lowest⟩
+  let dflt : PStep := match steps.getLast? with
+    | some s => s
+    | none => stepOfX t0
+  let W : Nat → PStep := fun i =>
+    let s := steps.getD i dflt
+    if i == 0 then { s with listing := t0.pids } else s
+  let flagsDead : Bool := me.gone || me.reused
+  let nspJ := jExc "NoSuchProcess" (some pid)
+  let static : Bool := t1o.isNone && stepsO.isNone && osJ == Json.null && isPlain t0
+  if call == "children" || call == "children_rec" then
+    let recursive := call == "children_rec"
+    let L := t0.pids
+    let w0 := t0.read
+    let wl := t1.read
+    let m := (childrenX xcfg me recursive L w0 wl).2
+    let links := Spec.linksOf L w0
+    let look := lookOfW wl
+    let alive : Bool := match w0 pid with
+      | .ok _ s => s == me.ctime
+      | _ => false
+    let ownDenied : Bool := w0 pid == .denied
+    let stays : Bool := links.all fun e => wl e.1 != .denied
+    let sat := Spec.descSat links look me.ctime pid
+    let isClosed := Spec.closed links look me.ctime pid sat
+    let sp : Json := if flagsDead then nspJ
+      else if ownDenied then Json.null
+      else if !alive then nspJ
+      else if !stays then Json.null
+      else if recursive then jObj (("kind", "ok") :: jProcs look (Spec.descList links look me.ctime pid))
+      else jObj (("kind", "ok") :: jProcs look (Spec.childList links look me.ctime pid))
+    let oldOk : Bool := !static ||
+      xoutEq m (XOut.ofOut (children cfg me recursive (lookOf (toPlainT t0)) (ppidMap (toPlainT t0)) (lookOf (toPlainT t0))).2)
+    return jObj [("model", jXOut (jProcs look) m), ("spec", sp), ("closed", Json.bool (isClosed || !recursive)),
+      ("old_agrees", Json.bool oldOk), ("cached", Json.bool cached)]
+  else if call == "parent" || call == "parents" then
+    match lowestPidX ps (W 0).listing with
+    | (_, none) =>
+      return jObj [("model", jExc "IndexError" none), ("spec", Json.null), ("closed", Json.bool true),
+        ("old_agrees", Json.bool true), ("cached", Json.bool cached)]
+    | (_, some low) =>
+      let silent (o : XOut (List Row)) : Bool := match o with
+        | .denied _ => true
+        | _ => false
+      if call == "parent" then
+        let m := (parentX cfg ps (W 0) me os).2.2.2
+        let spv := Spec.parentOfW (W 0) low pid me.ctime
+        let sp : Json := if cached then Json.null
+          else if pid == low then jObj (("kind", "ok") :: jParent none)
+          else if flagsDead then nspJ
+          else match spv with
+            | .none => jObj (("kind", "ok") :: jParent none)
+            | .some q => jObj (("kind", "ok") :: jParent (some q))
+            | .nsp p => jExc "NoSuchProcess" (some p)
+            | .denied _ => Json.null
+        let oldOk : Bool := !static || xoutEq m (XOut.ofOut (parent cfg ps (toPlainT t0) me).2.2)
+        return jObj [("model", jXOut jParent m), ("spec", sp), ("closed", Json.bool true),
+          ("old_agrees", Json.bool oldOk), ("cached", Json.bool cached)]
+      else
+        let fuel := 4096 + 2
+        let m := (parentsX cfg fuel ps W me os).2
+        let spv := Spec.chainDyn W low fuel 0 [pid] pid me.ctime []
+        let sp : Json := if cached then Json.null
+          else if pid == low then jObj (("kind", "ok") :: jChain [])
+          else if flagsDead then nspJ
+          else if silent spv then Json.null
+          else jXOut jChain spv
+        let oldOk : Bool := !static || xoutEq m (XOut.ofOut (parents cfg ps (toPlainT t0) me).2)
+        return jObj [("model", jXOut jChain m), ("spec", sp), ("closed", Json.bool true),
+          ("old_agrees", Json.bool oldOk), ("cached", Json.bool cached)]
+  else .error s!"unknown call {call}"
+
 def handle (_ : Unit) (j : Json) : R (Unit × Json) := do
   let op ← strF j "op"
   if op == "tree" then
@@ -130,6 +286,9 @@ def handle (_ : Unit) (j : Json) : R (Unit × Json) := do
     return ((), r)
   else if op == "stat" then
     let r ← handleStat j
+    return ((), r)
+  else if op == "dyn" then
+    let r ← handleDyn j
     return ((), r)
   else .error s!"unknown op {op}"
 
